@@ -312,5 +312,11 @@ func genScenario(r *hx.Rand, tier string) *Scenario {
 			}
 		}
 	}
+	// StartMTLS with an invalid configuration: fails before observability and the OnStart hooks (K09h)
+	if sc.Proto == pMTLS && sc.Listen == lOK && sc.LateHup == 0 && r.Chance(1, 8) {
+		sc.Listen, sc.Starts = lCfg, nil
+		sc.Metrics, sc.Tracing, sc.MetDead, sc.MetFlaky, sc.MetricsRace = false, false, false, false, false
+		sc.Warm, sc.SlowLog, sc.LateReg, sc.ShortWrite = 0, false, false, false
+	}
 	return sc
 }
